@@ -105,3 +105,94 @@ Proof.
         -- rewrite Nat.sub_0_r. exact Hfor.
       * apply ev_stmts_tail. cbn [Nat.add]. rewrite firstn_all. cmp 4.
 Qed.
+
+(* ------------------------------------------------------------------------------------------ *)
+(* The other per-interface pieces of the contract-level message (`Interfaces::emit_*` of types/interfaces.rs), for ANY list of
+   attached interfaces and any kind: each is one template instance per interface, in order, mentioning THAT interface's module
+   and variant and the kind's own names. *)
+Definition iface2 (i : value * value) : value :=
+  let '(m, v) := i in VRec "ContractMessageAttr" [("module", m); ("variant", v); ("customs", customs_v false false)].
+Definition ifaces_v (l : list (value * value)) : value := VRec "Interfaces" [("interfaces", VArr (map iface2 l))].
+
+Definition one_text (f : string) (extra : list value) : string :=
+  match call BR 2 200 f (ifaces_v [(VUnit, VUnit)] :: VUnit :: extra) with
+  | Some (CVal (VArr [VCon "quote" [VStr t; _]])) => t | _ => "" end.
+Definition inner_text (f : string) (extra : list value) (hole : string) : string :=
+  match call BR 2 200 f (ifaces_v [(VUnit, VUnit)] :: VUnit :: extra) with
+  | Some (CVal (VArr [VCon "quote" [_; VRec "holes" hs]])) =>
+      match lookup hole hs with Some (VCon "quote" [VStr t; _]) => t | _ => "" end
+  | _ => "" end.
+
+Definition t_attempt : string := Eval vm_compute in one_text "Interfaces::emit_deserialization_attempts" [].
+Definition t_msgs_call : string := Eval vm_compute in one_text "Interfaces::emit_messages_call" [].
+Definition t_glue_variant : string := Eval vm_compute in one_text "Interfaces::emit_glue_message_variants" [VUnit].
+Definition t_glue_type : string := Eval vm_compute in one_text "Interfaces::emit_glue_message_types" [VUnit].
+Definition t_iface_enum : string := Eval vm_compute in inner_text "Interfaces::emit_glue_message_types" [VUnit] "interface_enum".
+Definition t_schemas_call : string := Eval vm_compute in one_text "Interfaces::emit_response_schemas_calls" [VUnit].
+
+(* the name list of a part for this kind: `<ep name of the kind>_messages` *)
+Definition messages_fn (kv m : value) : value :=
+  VCon "Ident::new" [VCon "format" [VStr "{}_messages"; VCon ".emit_ep_name" [kv]]; VCon ".span" [m]].
+(* the message type of an interface for this kind: `<Contract as module::sv::InterfaceMessagesApi>::<accessor of the kind>` *)
+Definition iface_enum (contract m : value) : value := quote_v t_iface_enum [("contract", contract); ("module", m)].
+
+Definition attempt_spec (kv : value) (i : value * value) : value :=
+  let '(m, v) := i in quote_v t_attempt [("module", m); ("messages_fn_name", messages_fn kv m); ("variant", v)].
+Definition msgs_call_spec (kv : value) (i : value * value) : value :=
+  let '(m, _) := i in quote_v t_msgs_call [("module", m); ("messages_fn_name", messages_fn kv m)].
+Definition glue_variant_spec (kv contract : value) (i : value * value) : value :=
+  let '(m, v) := i in
+  quote_v t_glue_variant [("variant", v); ("interface_enum", iface_enum contract m); ("type_name", VCon ".as_accessor_name" [kv])].
+Definition glue_type_spec (kv contract : value) (i : value * value) : value :=
+  let '(m, _) := i in quote_v t_glue_type [("interface_enum", iface_enum contract m); ("type_name", VCon ".as_accessor_name" [kv])].
+Definition schemas_call_spec (kv contract : value) (i : value * value) : value :=
+  let '(m, _) := i in quote_v t_schemas_call [("contract", contract); ("module", m); ("type_name", VCon ".as_accessor_name" [kv])].
+
+Local Ltac map_proof l spec :=
+  eapply calls_intro with (c := CVal _); try reflexivity;
+  simpl fn_body; cbn [app combine fn_params];
+  eapply ev_block; [|reflexivity]; apply ev_stmts_tail; eapply ev_block; [|reflexivity];
+  (eapply ev_stmts_let; [cmp 4 | reflexivity |]);
+  (eapply ev_stmts_let; [cmp 4 | reflexivity |]); cbn [app];
+  match goal with |- evals_stmts ?P ?dd (SExpr (EFor ?i ?lo ?hi ?b) :: ?rest) ?en ?res =>
+    let Hfor := fresh "Hfor" in let Hinv := fresh "Hinv" in let enf := fresh "enf" in
+    destruct (ev_for_inv P dd i b (fun j en' => en' = ("map_acc1", VArr (map spec (firstn j l))) :: List.tl en) (length l) 0 en)
+      as (enf & Hfor & Hinv);
+    [ reflexivity
+    | let j := fresh "j" in let en' := fresh "en'" in let Hj := fresh "Hj" in
+      intros j en' Hj ->; cbn [List.tl];
+      let m := fresh "m" in let v := fresh "v" in let Hnth := fresh "Hnth" in let Hm := fresh "Hm" in
+      destruct (nth_error l j) as [[m v]|] eqn:Hnth; [|apply nth_error_None in Hnth; lia];
+      assert (Hm : nth_error (map iface2 l) j = Some (iface2 (m, v))) by (rewrite nth_error_map, Hnth; reflexivity);
+      rewrite (firstn_snoc' _ _ _ Hnth), map_app; cbn [map];
+      eexists; eexists; split;
+        [ eapply ev_block; [|reflexivity];
+          eapply ev_stmts_let; [apply (evals_compute _ 6); intros gg fl; simpl; rewrite Hm; reflexivity | reflexivity |];
+          apply ev_stmts_tail; cmp 40
+        | reflexivity ]
+    | rewrite Hinv in Hfor; cbn [List.tl] in Hfor;
+      eapply ev_stmts_expr;
+        [ eapply ev_for; [cmp 2 | apply (evals_compute _ 4); intros gg fl; simpl; rewrite map_length; reflexivity
+                         | rewrite Nat.sub_0_r; exact Hfor]
+        | apply ev_stmts_tail; cbn [Nat.add]; rewrite firstn_all; cmp 4 ] ]
+  end.
+
+Theorem translated_deserialization_attempts kv (l : list (value * value)) :
+  calls BR 2 "Interfaces::emit_deserialization_attempts" [ifaces_v l; kv] (CVal (VArr (map (attempt_spec kv) l))).
+Proof. map_proof l (attempt_spec kv). Qed.
+
+Theorem translated_messages_call kv (l : list (value * value)) :
+  calls BR 2 "Interfaces::emit_messages_call" [ifaces_v l; kv] (CVal (VArr (map (msgs_call_spec kv) l))).
+Proof. map_proof l (msgs_call_spec kv). Qed.
+
+Theorem translated_glue_variants kv contract (l : list (value * value)) :
+  calls BR 2 "Interfaces::emit_glue_message_variants" [ifaces_v l; kv; contract] (CVal (VArr (map (glue_variant_spec kv contract) l))).
+Proof. map_proof l (glue_variant_spec kv contract). Qed.
+
+Theorem translated_glue_types kv contract (l : list (value * value)) :
+  calls BR 2 "Interfaces::emit_glue_message_types" [ifaces_v l; kv; contract] (CVal (VArr (map (glue_type_spec kv contract) l))).
+Proof. map_proof l (glue_type_spec kv contract). Qed.
+
+Theorem translated_response_schemas_calls kv contract (l : list (value * value)) :
+  calls BR 2 "Interfaces::emit_response_schemas_calls" [ifaces_v l; kv; contract] (CVal (VArr (map (schemas_call_spec kv contract) l))).
+Proof. map_proof l (schemas_call_spec kv contract). Qed.
